@@ -1,6 +1,6 @@
 import ConfModel.Driver.Common
 import ConfModel.Model.Echo
-import ConfModel.Spec.Agree
+import ConfModel.Spec.EchoAgree
 namespace ConfModel.Driver.C02
 open Lean ConfModel.Driver ConfModel.Echo
 
